@@ -167,7 +167,7 @@ Definition np_basic_slice (v : list Z) (start stop step : option Z) : pyres (lis
          (fun '(s, e, st) => Ok (map (fun i => nth (Z.to_nat i) v 0) (zrange s e st))).
 
 (* ------------------------------------------------------------------ *)
-(** * 3. GeometryArray.take                                             *)
+(** * 3. requests: fill values, index arguments, derivation steps       *)
 (* ------------------------------------------------------------------ *)
 (* what was passed as fill_value *)
 Inductive fillv : Type :=
@@ -211,6 +211,7 @@ Section Generic2.
 Context {X : Type}.
 Variable na : X.
 
+(* ---- GeometryArray.take ---- *)
 Definition take (ix : list Z) (allow_fill : bool) (fv : fillv) (l : list X)
   : pyres (list X) :=
   let n := Z.of_nat (length l) in
@@ -333,7 +334,7 @@ Definition array_iter (l : list X) : pyres (list X) :=
   collect (map (fun i => getitem_int (Z.of_nat i) l) (seq 0 (length l))).
 
 (* ------------------------------------------------------------------ *)
-(** * 6. derivation steps                                               *)
+(** * 6. running derivation steps                                       *)
 (* ------------------------------------------------------------------ *)
 Definition run_step (s : step) (l : list X) : pyres (list X) :=
   match s with
